@@ -322,7 +322,7 @@ def oracle(seed, tier):
                 break
         if len(samples) < 3:
             samples.append({"world": w, "cmd": lines[1], "answer": out[1][:80], "expected": exp[0][3][:3]})
-    return {"violations": viol[:20], "summary": {"cases": cases, "violations": len(viol), "nontrivial": nontriv, "input_distribution": dist}, "samples": samples}
+    return {"violations": trim_violations(viol, 20), "summary": {"cases": cases, "violations": len(viol), "nontrivial": nontriv, "input_distribution": dist}, "samples": samples}
 
 
 def replay(rp):
